@@ -150,7 +150,14 @@ pub fn run(a: &Args) {
         for how in ["constructed", "parsed", "constructed+cache-flush", "parsed+cache-flush"] {
             let flush = how.ends_with("cache-flush");
             let rr = if how.starts_with("constructed") {
-                ResourceRecord::new(Name::new_unchecked("x"), class_from(c).unwrap(), 1, RData::Empty(TYPE::A)).with_cache_flush(flush)
+                let cl = match class_from(c) {
+                    Some(cl) => cl,
+                    None => {
+                        out.emit(json!({"ev": "MatchClass", "cls": "match-class", "c": c, "how": how, "q": [[c, false, "refused"]]}));
+                        continue;
+                    }
+                };
+                ResourceRecord::new(Name::new_unchecked("x"), cl, 1, RData::Empty(TYPE::A)).with_cache_flush(flush)
             } else {
                 let mut m = vec![0, 1, 0x80, 0, 0, 0, 0, 1, 0, 0, 0, 0];
                 m.extend(b"\x01x\x00\x00\x01");
@@ -163,8 +170,11 @@ pub fn run(a: &Args) {
             };
             let mut q = vec![];
             for qc in [1u16, 2, 3, 4, 254, 255] {
-                let qcl = QCLASS::try_from(qc).unwrap();
-                q.push(json!([qc, rr.match_qclass(qcl)]));
+                // (a supported question class the conversion refuses is an observation, not a set-up problem)
+                match QCLASS::try_from(qc) {
+                    Ok(qcl) => q.push(json!([qc, rr.match_qclass(qcl)])),
+                    Err(_) => q.push(json!([qc, false, "refused"])),
+                }
                 st.case(("mc", c, how, qc), true);
             }
             out.emit(json!({"ev": "MatchClass", "cls": "match-class", "c": c, "how": how, "q": q}));
